@@ -1,4 +1,5 @@
 import HappyProofs.C18.ScalarInst
+import HappyProofs.C18.SameUpdates
 import HappyModel.C18.Spec
 /-!
 # C18 — property theorems
@@ -102,6 +103,142 @@ theorem pn_merge_assoc (a b c : PN) : (a.merge b).merge c = a.merge (b.merge c) 
 
 theorem pn_merge_idem (a : PN) : a.merge a = a := by
   simp [PN.merge, Vec.vmax_idem]
+
+/-! #### OR-set
+
+`ents` and `tomb` are duplicate-free lists used as sets and `seq` is the replica-local tag counter,
+so the laws are extensional (`ORSet.Equiv`: same live entries, same tombstones — hence the same
+`has`, `ORSet.Equiv.has_eq`). -/
+
+theorem orset_merge_comm (a b : ORSet) : (a.merge b).Equiv (b.merge a) :=
+  ORSet.merge_comm_equiv a b
+
+theorem orset_merge_assoc (a b c : ORSet) : ((a.merge b).merge c).Equiv (a.merge (b.merge c)) :=
+  ORSet.merge_assoc_equiv a b c
+
+/-- idempotence, for sets whose live entries are not tombstoned; every reachable replica state is
+    such a set (`orset_reachable_wf`) -/
+theorem orset_merge_idem (a : ORSet) (h : a.WF) : (a.merge a).Equiv a :=
+  ORSet.merge_idem_equiv a h
+
+theorem orset_reachable_wf (ops : List COp) (r : Nat) : ((Sys.run Sys.init ops).rep r).os.WF := by
+  obtain ⟨_, _, _, tg, h⟩ := crdtInv_run ops
+  exact oinv_wf _ _ tg h r
+
+/-- membership is what the laws are about -/
+theorem orset_merge_has (a b c : ORSet) (x : Nat) :
+    (a.merge b).has x = (b.merge a).has x ∧
+    ((a.merge b).merge c).has x = (a.merge (b.merge c)).has x ∧
+    (a.WF → (a.merge a).has x = a.has x) :=
+  ⟨(orset_merge_comm a b).has_eq x, (orset_merge_assoc a b c).has_eq x,
+   fun h => (orset_merge_idem a h).has_eq x⟩
+
+/-- non-vacuity: three reachable, pairwise different OR-sets (adds, a remove and merges) -/
+example :
+    let s := Sys.run Sys.init [.oadd 0 7, .oadd 1 7, .merge 2 0, .orem 2 7, .oadd 1 8, .merge 0 2,
+      .merge 2 1, .oadd 0 9]
+    let a := (s.rep 0).os; let b := (s.rep 1).os; let c := (s.rep 2).os
+    a.WF ∧ a.tomb ≠ [] ∧ b.ents.length = 2 ∧ a ≠ b ∧ b ≠ c ∧
+    (a.merge b).ents ≠ (b.merge a).ents ∧ (a.merge b).has 7 = true ∧ (a.merge c).has 8 = true := by
+  decide
+
+/-- the well-formedness hypothesis of idempotence cannot be dropped for arbitrary values -/
+example : ¬ ((ORSet.mk 1 [(5, ⟨0, 0⟩)] [⟨0, 0⟩]).merge (ORSet.mk 1 [(5, ⟨0, 0⟩)] [⟨0, 0⟩])).has 5
+    = (ORSet.mk 1 [(5, ⟨0, 0⟩)] [⟨0, 0⟩]).has 5 := by decide
+
+/-! #### LWW register -/
+
+/-- commutativity, when equal timestamps carry equal values -/
+theorem lww_merge_comm (a b : LWW) (h : LWW.Coherent a b) : a.merge b = b.merge a :=
+  LWW.merge_comm' a b h
+
+/-- associativity holds without the coherence hypothesis -/
+theorem lww_merge_assoc (a b c : LWW) : (a.merge b).merge c = a.merge (b.merge c) :=
+  LWW.merge_assoc' a b c
+
+theorem lww_merge_idem (a : LWW) : a.merge a = a := LWW.merge_idem' a
+
+/-- non-vacuity: coherent registers with different timestamps -/
+example : LWW.Coherent ⟨some (⟨3, 0, 1⟩, 10)⟩ ⟨some (⟨3, 1, 0⟩, 20)⟩ ∧
+    (LWW.merge ⟨some (⟨3, 0, 1⟩, 10)⟩ ⟨some (⟨3, 1, 0⟩, 20)⟩).cur = some (⟨3, 1, 0⟩, 20) := by
+  refine ⟨fun t va vb h1 h2 => ?_, by decide⟩
+  cases h1; cases h2
+
+/-- without coherence commutativity fails: two writes with the same timestamp and different
+    values — each side keeps its own -/
+theorem lww_merge_not_comm_incoherent :
+    LWW.merge ⟨some (⟨3, 0, 1⟩, 10)⟩ ⟨some (⟨3, 0, 1⟩, 20)⟩ ≠
+    LWW.merge ⟨some (⟨3, 0, 1⟩, 20)⟩ ⟨some (⟨3, 0, 1⟩, 10)⟩ := by decide
+
+/-! ### CRDT values are the specified ones
+
+`SpecSys` (HappyModel/C18/Spec.lean) records every update operation with the set of operation ids
+its replica had seen (`K`), and keeps for every replica the set `know r` of update ids in its
+causal past; merges only union these sets. The theorems below hold for every operation list. -/
+
+/-- counter value = Σ seen increments − Σ seen decrements -/
+theorem counter_value_spec (ops : List COp) (r : Nat) :
+    ((Sys.run Sys.init ops).rep r).pn.value = (SpecSys.run {} ops).counter r :=
+  cinv_value _ _ (crdtInv_run ops).2.1 r
+
+example :
+    let ops := [COp.inc 0 2, .dec 1 1, .merge 1 0, .inc 1 3, .merge 0 1, .merge 0 1, .dec 2 4]
+    ((Sys.run Sys.init ops).rep 0).pn.value = 4 ∧ (SpecSys.run {} ops).counter 0 = 4 ∧
+    ((Sys.run Sys.init ops).rep 2).pn.value = -4 := by decide
+
+/-- the OR-set contains x exactly when some seen add of x was not observed by a seen remove of x -/
+theorem orset_spec (ops : List COp) (r x : Nat) :
+    ((Sys.run Sys.init ops).rep r).os.has x = (SpecSys.run {} ops).orHas r x := by
+  obtain ⟨_, _, _, tg, h⟩ := crdtInv_run ops
+  exact oinv_has _ _ tg h r x
+
+/-- non-vacuity: a concurrent add survives a remove (7 at replica 0), an observed add does not
+    (7 at replica 2 before the last merge), on both sides of the equation -/
+example :
+    let ops := [COp.oadd 0 7, .oadd 1 7, .merge 2 0, .orem 2 7, .merge 0 2, .merge 0 1, .merge 2 0]
+    let ops' := [COp.oadd 0 7, .oadd 1 7, .merge 2 0, .orem 2 7, .merge 0 2]
+    ((Sys.run Sys.init ops).rep 0).os.has 7 = true ∧ (SpecSys.run {} ops).orHas 0 7 = true ∧
+    ((Sys.run Sys.init ops').rep 0).os.has 7 = false ∧ (SpecSys.run {} ops').orHas 0 7 = false := by
+  decide
+
+/-- the register holds a seen write that no seen write beats (`none` iff nothing was seen);
+    no hypothesis on the timestamps is needed for this direction -/
+theorem lww_spec (ops : List COp) (r : Nat) :
+    (SpecSys.run {} ops).lwwOk r ((Sys.run Sys.init ops).rep r).lww.cur = true :=
+  (SpecSys.lwwOk_iff _ _ _).mpr ((crdtInv_run ops).2.2.1 r)
+
+example :
+    let ops := [COp.lset 0 10 5 0 0, .lset 1 20 5 1 1, .merge 0 1, .lset 2 30 4 9 2, .merge 0 2,
+      .merge 2 0]
+    ((Sys.run Sys.init ops).rep 2).lww.cur = some (⟨5, 1, 1⟩, 20) ∧
+    (SpecSys.run {} ops).writes 2 = [(⟨4, 9, 2⟩, 30), (⟨5, 1, 1⟩, 20), (⟨5, 0, 0⟩, 10)] := by decide
+
+/-- replicas that have received the same updates have equal values: same counter value, same
+    OR-set members, and — when equal timestamps carry equal values — the same register content -/
+theorem same_updates_equal_values (ops : List COp) (r1 r2 : Nat)
+    (h : SameSet ((SpecSys.run {} ops).know r1) ((SpecSys.run {} ops).know r2)) :
+    ((Sys.run Sys.init ops).rep r1).pn.value = ((Sys.run Sys.init ops).rep r2).pn.value ∧
+    (∀ x, ((Sys.run Sys.init ops).rep r1).os.has x = ((Sys.run Sys.init ops).rep r2).os.has x) ∧
+    (OpsCoherent ops →
+      ((Sys.run Sys.init ops).rep r1).lww.cur = ((Sys.run Sys.init ops).rep r2).lww.cur) := by
+  refine ⟨?_, fun x => ?_, fun hc => ?_⟩
+  · rw [counter_value_spec, counter_value_spec]; exact counter_congr _ r1 r2 h
+  · rw [orset_spec, orset_spec]; exact orHas_congr _ r1 r2 h x
+  · exact best_unique ops hc r1 r2 h _ _ ((crdtInv_run ops).2.2.1 r1) ((crdtInv_run ops).2.2.1 r2)
+
+/-- non-vacuity: after merging in both directions two replicas know the same updates (in a
+    different order), the operations are coherent, and the knowledge is not trivial -/
+example :
+    let ops := [COp.oadd 0 5, .inc 1 2, .lset 0 9 3 0 0, .lset 1 8 3 0 1, .merge 0 1, .merge 1 0]
+    let t := SpecSys.run {} ops
+    SameSet (t.know 0) (t.know 1) ∧ t.know 0 ≠ t.know 1 ∧ (t.know 0).length = 4 ∧
+    OpsCoherent ops := by decide
+
+/-- without coherent timestamps the register part fails: same updates, different contents -/
+example :
+    let ops := [COp.lset 0 10 3 0 0, .lset 1 20 3 0 0, .merge 0 1, .merge 1 0]
+    SameSet ((SpecSys.run {} ops).know 0) ((SpecSys.run {} ops).know 1) ∧
+    ((Sys.run Sys.init ops).rep 0).lww.cur ≠ ((Sys.run Sys.init ops).rep 1).lww.cur := by decide
 
 /-- non-vacuity: a concrete history with a receive has related and unrelated pairs -/
 example :
